@@ -5052,17 +5052,19 @@ class DecRoAffine(RoAffine):
                     rvecs.loc[i, index] = arg.values.loc[i].ravel()
 
         raffine_values = self.raffine()
-        affine_values = self.affine()
+        # the deterministic part may hold affinely adaptive decisions: it is
+        # evaluated at the same realisations
+        affine_values = self.affine(*args)
 
-        if isinstance(raffine_values, pd.Series) or sw:
+        raf_series = isinstance(raffine_values, pd.Series)
+        aff_series = isinstance(affine_values, pd.Series)
+        if raf_series or aff_series or sw:
             output = []
             for i in rvecs.index:
-                if isinstance(raffine_values, pd.Series):
-                    raffine_value = raffine_values.loc[i]
-                    affine_value = affine_values.loc[i]
-                else:
-                    raffine_value = raffine_values
-                    affine_value = affine_values
+                raffine_value = (raffine_values.loc[i] if raf_series
+                                 else raffine_values)
+                affine_value = (affine_values.loc[i] if aff_series
+                                else affine_values)
                 nrand = raffine_value.shape[1]
 
                 item = (raffine_value@rvecs.loc[i].values[:nrand]).reshape(self.shape)
